@@ -99,6 +99,9 @@ type quoteState interface {
 
 var c14Warm = map[string]tokenizers.ITokenizer{}
 
+// one quote-state object of each kind lives through the whole run and meets every quote character in turn
+var c14States = map[int64]quoteState{}
+
 func runC14(in sx.SX) (sx.SX, string) {
 	l := sx.AsList(in)
 	var st quoteState
@@ -129,6 +132,27 @@ func runC14(in sx.SX) (sx.SX, string) {
 	fail := ""
 	if decEnc != s {
 		fail = fmt.Sprintf("DecodeString(EncodeString(%s)) = %s", sx.Quote(s), sx.Quote(decEnc))
+	}
+	if fail == "" {
+		old := c14States[sx.AsInt(l[0])]
+		if old == nil {
+			switch sx.AsInt(l[0]) {
+			case 0:
+				old = generic.NewGenericQuoteState()
+			case 1:
+				old = exprtok.NewExpressionQuoteState()
+			default:
+				old = csv.NewCsvQuoteState()
+			}
+			c14States[sx.AsInt(l[0])] = old
+		}
+		if e2 := old.EncodeString(s, q); e2 != enc {
+			fail = fmt.Sprintf("a quote state used before (with other quote characters) encodes %s as %s, a new one as %s", sx.Quote(s), sx.Quote(e2), sx.Quote(enc))
+		} else if d2 := old.DecodeString(enc, q); d2 != s {
+			fail = fmt.Sprintf("a quote state used before (with other quote characters) decodes %s to %s, not to %s", sx.Quote(enc), sx.Quote(d2), sx.Quote(s))
+		} else if d3 := old.DecodeString(s, q); d3 != decS {
+			fail = fmt.Sprintf("a quote state used before (with other quote characters) decodes %s to %s, a new one to %s", sx.Quote(s), sx.Quote(d3), sx.Quote(decS))
+		}
 	}
 	if fail == "" && sx.AsInt(l[0]) != 0 {
 		rr := []rune(rest)
